@@ -106,7 +106,7 @@ T.append(tree('D13 nested optional', cmd('app', 'root', extra=[grp('Application 
 
 # D14 completion: value completers on options and positionals, hidden items, optional sub-commands
 T.append(tree('D14 completion', cmd('app', 'root', subOpt=True, extra=[grp('Application Options', [
-    opt('v', 'verbose'), opt('n', 'name', 'scalar', 'cc'), opt('f', 'file', 'slice', 'cc'), opt('p', 'plain', 'scalar', 'string'),
+    opt('v', 'verbose'), opt('V', '', 'flag'), opt('', 'Name', 'flag'), opt('n', 'name', 'scalar', 'cc'), opt('f', 'file', 'slice', 'cc'), opt('p', 'plain', 'scalar', 'string'),
     opt('', 'hid', 'scalar', 'string', hidden=True), opt('x', '', 'flag'), opt('o', 'opt', 'scalar', 'cc', optional=True, optvals=['dflt'])])], cmds=[
     cmd('add', 'exec', aliases=['a'], extra=[grp('Add', [opt('', 'force'), opt('n', 'note', 'scalar', 'string')])], args=[{'name': 'what', 'vtype': 'cc'}]),
     cmd('grp', 'exec', subOpt=True, extra=[grp('Grp', [opt('g', 'gee')])], cmds=[cmd('sub', 'exec', extra=[grp('Sub', [opt('', 'subopt')])])]),
@@ -137,6 +137,18 @@ T.append(tree('D16 help commands', cmd('app', 'root', extra=[grp('Application Op
     cmd('rm', 'exec', desc='', extra=[grp('Rm', [opt('r', '', 'flag', desc='recursive')])]),
     cmd('secret', 'exec', hidden=True, desc='hidden command', extra=[grp('Secret', [opt('', 'sec', 'flag', desc='secret flag')])]),
     cmd('zz', 'exec', aliases=['z'], desc='last', extra=[grp('Zz', [])])])))
+
+# D17 crossing names for the INI name preference (ini-name > field name > namespaced long name > short name) across nested groups,
+# and command names with upper-case letters in section paths
+T.append(tree('D17 ini crossing', cmd('app', 'root', subOpt=True, extra=[grp('Application Options', [
+    opt('', 'j', 'scalar', 'string'),                       # F1: long name j
+    opt('', 'outer', 'scalar', 'string', iniName='F4'),     # F2: ini-name equal to the field name of a nested option
+    opt('q', 'F5', 'scalar', 'string')],                    # F3: long name equal to a nested option's field name
+    [grp('Inner', [opt('j', 'jay', 'scalar', 'string'),      # F4: short name j
+                   opt('', 'five', 'scalar', 'string', iniName='Q'),   # F5: ini-name equal (case-insensitively) to the short name of F3
+                   opt('', 'j2', 'slice', 'string', iniName='jay')])])],     # F6: ini-name equal to the long name of F4
+    cmds=[cmd('Add', 'exec', subOpt=True, extra=[grp('Extra Options', [opt('', 'name', 'scalar', 'string')])], cmds=[
+              cmd('subCmd', 'exec', extra=[grp('Sub', [opt('', 'leaf', 'scalar', 'string')])])])])))
 
 with open('argparse.ndjson', 'w') as f:
     for i, t in enumerate(T, 1):
